@@ -190,3 +190,23 @@ impl Entry for IdEntry {
         pairs.into_iter()
     }
 }
+
+thread_local! {
+    /// what `TlsScript` (a stateless generator created afresh for every draw) answers
+    pub static TLS_SCRIPT: std::cell::RefCell<Script> = std::cell::RefCell::new(Script::default());
+}
+/// A generator without state of its own, as the library's `DefaultRng<R>` adapter expects: it is
+/// `Default`-constructed for every draw and answers from the thread's script.
+#[derive(Default)]
+pub struct TlsScript;
+impl RngCore for TlsScript {
+    fn next_u32(&mut self) -> u32 {
+        TLS_SCRIPT.with(|s| s.borrow().clone().next_u32())
+    }
+    fn next_u64(&mut self) -> u64 {
+        TLS_SCRIPT.with(|s| s.borrow().clone().next_u64())
+    }
+    fn fill_bytes(&mut self, _dest: &mut [u8]) {
+        panic!("scripted rng: fill_bytes is not scripted")
+    }
+}
